@@ -4,6 +4,7 @@
 # /repo HEAD, confirms that the repository's tests pass with it, and runs the quick checks
 # (default: all twenty) against that worktree. Any VIOLATION is a candidate false alarm to classify.
 set -u
+HOME_DIR=$(cd "$(dirname "$0")/.." && pwd)
 DIFF=$1; shift
 IDS=${@:-C01 C02 C03 C04 C05 C06 C07 C08 C09 C10 C11 C12 C13 C14 C15 C16 C17 C18 C19 C20}
 export GOFLAGS=-mod=mod GOPROXY=off GOSUMDB=off GOTOOLCHAIN=local
@@ -24,7 +25,7 @@ fi
 ( cd $WT/v4 && export GOCACHE=$SCRATCH_CACHE && go build ./... && go test -vet=off -count=1 ./... 2>&1 | tail -6 ) > /tmp/benignrun.$$ 2>&1
 grep -q "FAIL\|cannot\|error" /tmp/benignrun.$$ && { echo "suite with change: FAIL"; cat /tmp/benignrun.$$; exit 3; } || echo "suite with change: PASS"
 for id in $IDS; do
-  cd /verif && VERIF_REPO=$WT/v4 VERIF_OUT=$OUT timeout 1800 ./run.sh $id ${TIER:-quick} > /tmp/benignrun.$$ 2>&1; rc=$?
+  cd "$HOME_DIR" && VERIF_REPO=$WT/v4 VERIF_OUT=$OUT timeout 1800 ./run.sh $id ${TIER:-quick} > /tmp/benignrun.$$ 2>&1; rc=$?
   echo "== $id exit=$rc $(grep -c '^VIOLATION' /tmp/benignrun.$$) violations | $(tail -1 /tmp/benignrun.$$ | cut -c1-200)"
   if [ $rc -ne 0 ]; then grep -B1 -A3 "signature:" /tmp/benignrun.$$ | cut -c1-300 | head -40; grep -v "^VIOLATION\|signature" /tmp/benignrun.$$ | tail -5 | cut -c1-300; fi
 done
